@@ -144,7 +144,7 @@ def candidates(op, ob, p, before, after, num, hs0, hs1):
     return None
 
 
-def build_cases(sc, obs, with_backup, crash=False, exclude=()):
+def build_cases(sc, obs, with_backup, crash=False, exclude=(), arm_ops=("arm",), clear_on_stop=True):
     """walk one scenario: returns (tcases, scases, stats); each case = (tag, coq_text).
     crash: a member is lost somewhere after the "arm" operation: no transition cases from there on, and the state
     cases after it (returned separately under stats["crash_states"]) are to be judged by state_ok_crash"""
@@ -157,7 +157,7 @@ def build_cases(sc, obs, with_backup, crash=False, exclude=()):
     prev = None                  # (index, hstate obs)
     pending = []                 # ops since the previous hstate
     for i, (op, ob) in enumerate(zip(sc["ops"], obs)):
-        if op["op"] == "arm":
+        if op["op"] in arm_ops:
             armed = True
         if op["op"] != "hstate":
             pending.append((i, op, ob))
@@ -213,7 +213,7 @@ def build_cases(sc, obs, with_backup, crash=False, exclude=()):
                     ref[pop["k"]] = (pob["part"], None)
                 else:
                     ref.pop(pop["k"], None)
-            elif pop["op"] in ("stop",):
+            elif pop["op"] in ("stop",) and clear_on_stop:
                 ref.clear()
         # state case per partition that has tracked keys
         for p in range(nparts):
